@@ -53,6 +53,8 @@ type negoScn struct {
 	// NoReneg: use the parrot's spec as a custom spec with renegotiation support switched off (same wire image);
 	// ExportKeyingMaterial is unavailable on connections that allow renegotiation
 	NoReneg bool `json:"no_reneg"`
+	// KSReverse: the parrot's spec as a custom spec whose key_share entries are listed in the opposite order
+	KSReverse bool `json:"ks_reverse"`
 	// client options
 	Omit      bool  `json:"omit"`
 	RemoveSNI bool  `json:"remove_sni"`
@@ -320,7 +322,7 @@ func runNego(s negoScn, rawScn json.RawMessage, pk *hlib.PKI, certs map[string]t
 	}
 	nch := 0
 	runID := id
-	if s.NoReneg {
+	if s.NoReneg || s.KSReverse {
 		runID = tls.HelloCustom
 	}
 	r := hlib.RunHandshake(ccfg, scfg, runID, hlib.HSOpts{Timeout: 5 * time.Second, Echo: echo, EKM: ekm, OnClientWrite: func(b []byte) {
@@ -333,14 +335,20 @@ func runNego(s negoScn, rawScn json.RawMessage, pk *hlib.PKI, certs map[string]t
 			}
 		}
 	}, Prep: func(u *tls.UConn) error {
-		if s.NoReneg {
+		if s.NoReneg || s.KSReverse {
 			spec, err := tls.UTLSIdToSpec(id)
 			if err != nil {
 				return err
 			}
 			for _, e := range spec.Extensions {
-				if ri, ok := e.(*tls.RenegotiationInfoExtension); ok {
+				if ri, ok := e.(*tls.RenegotiationInfoExtension); ok && s.NoReneg {
 					ri.Renegotiation = tls.RenegotiateNever
+				}
+				if ks, ok := e.(*tls.KeyShareExtension); ok && s.KSReverse {
+					// a custom spec: the parrot's key shares in the opposite order
+					for i, j := 0, len(ks.KeyShares)-1; i < j; i, j = i+1, j-1 {
+						ks.KeyShares[i], ks.KeyShares[j] = ks.KeyShares[j], ks.KeyShares[i]
+					}
 				}
 			}
 			return u.ApplyPreset(&spec)
@@ -353,7 +361,7 @@ func runNego(s negoScn, rawScn json.RawMessage, pk *hlib.PKI, certs map[string]t
 	chs := hlib.ClientHellos(r.CWire)
 	res := map[string]any{"ev": "Result", "cerr": hlib.ErrStr(r.CErr), "serr": hlib.ErrStr(r.SErr),
 		"corigin": errOrigin(r.CErr), "sorigin": errOrigin(r.SErr), "cpanic": r.CPanic,
-		"cok": r.CErr == nil, "sok": r.SErr == nil, "echo": r.EchoOK, "nch": len(chs),
+		"cok": r.CErr == nil, "hsok": r.HSOK, "sok": r.SErr == nil, "echo": r.EchoOK, "nch": len(chs),
 		"cs": csJSON(r.CS), "ss": csJSON(r.SS)}
 	if r.UC != nil && r.UC.HandshakeState.Hello != nil {
 		res["hsraw"] = hlib.Ints(r.UC.HandshakeState.Hello.Raw)
